@@ -28,8 +28,9 @@ class C09(Mon):
         return self.I.getattr(self.sc.re, "_deferred_pause_requested") is True
 
     def quiet(self):
+        """only deferred pauses (and suspensions, which do not cancel a deferred request) were requested in this call"""
         tr = self.tr
-        return not tr.term_requested and not (tr.interrupters - {"pause_defer", "pause-msg-defer"}) and not tr.failed_pause
+        return not tr.term_requested and not (tr.interrupters - {"pause_defer", "pause-msg-defer", "suspend"}) and not tr.failed_pause and not tr.nonresumable_seen
 
     def __call__(self, kind, *a):
         w, sc, tr = self.w, self.sc, self.tr
@@ -39,7 +40,12 @@ class C09(Mon):
             fr, to = trs[self.n_tr]
             self.n_tr += 1
             if to == "pausing":
+                if self.pending_seen and not self.due and self.quiet():
+                    w.check(f"{REQ}._request_pause_coro#ensures[a deferred pause does not take effect before a checkpoint is processed]", False,
+                            dict(info, at=str(getattr(sc.plan.last_msg, "command", None))))
                 self.pending_seen = False
+            if to == "suspending":
+                self.due = False              # a suspension interrupting the checkpoint itself: the pause is due again at the next checkpoint
             if to == "paused":
                 if self.due:
                     self.from_deferred = True
@@ -55,8 +61,8 @@ class C09(Mon):
             if self.due and self.quiet():
                 w.check(f"{REQ}._checkpoint#ensures[with a deferred pause pending the engine pauses at the checkpoint, before any later message]",
                         False, dict(info, later_message=msg.command))
-            if msg.command == "checkpoint" and self.flag():
-                self.due = True
+            if msg.command == "checkpoint" and self.pending_seen:
+                self.due = True               # (the ghost flag, not the engine's: a request must not get lost on the way)
             elif msg.command == "checkpoint":
                 w.ok(f"{REQ}._checkpoint#ensures[with a deferred pause pending the engine pauses at the checkpoint, before any later message]")
         elif kind == "rewind" and isinstance(a[0], list):
